@@ -110,3 +110,42 @@ def rtx(rng, depth):
         "signers": rng.choice([{"k": "none"}, {"k": "some", "items": [e() for _ in n(0, 2)]}]),
         "metadata": [{"key": e(), "value": e()} for _ in n(0, 2)],
     }
+
+
+STRETCH = [23, 24, 255, 256, 4095, 4096, 4097, 65535, 65536, 70001]
+
+
+def stretched_tx(rng, n):
+    """a small transaction with one long leaf: a byte string, text, address, hash, transaction id or list of n elements
+    (n around the widths of a CBOR length and around the scratch-buffer sizes of common decoders), bare or wrapped, in a
+    datum, a directive field or a reference"""
+    kind = rng.choice(["bytes", "bytes", "string", "address", "hash", "list", "txid", "struct"])
+    blob = [rng.randint(0, 255) for _ in range(n)]
+    if kind == "string":
+        leaf = {"k": "string", "v": [rng.choice(b"abcxyz 019") for _ in range(n)]}
+    elif kind == "list":
+        leaf = {"k": "list", "items": [{"k": "number", "num": I(i % 7)} for i in range(min(n, 5000))]}
+    elif kind == "struct":
+        leaf = {"k": "struct", "ctor": 0, "fields": [{"k": "bool", "flag": i % 2 == 0} for i in range(min(n, 5000))]}
+    elif kind == "txid":
+        leaf = {"k": "utxo_refs", "refs": [{"txid": blob, "index": 1}]}
+    else:
+        leaf = {"k": kind, "v": blob}
+    w = rng.random()
+    if w < 0.3:
+        leaf = {"k": rng.choice(["noop", "into_datum", "into_script", "negate"]), "a": leaf}
+    elif w < 0.5:
+        leaf = {"k": "list", "items": [{"k": "number", "num": I(1)}, leaf]}
+    tx = rtx(rng, 1)
+    where = rng.choice(["datum", "adhoc", "reference", "metadata"])
+    if where == "datum":
+        tx["outputs"].append({"address": {"k": "address", "v": rbytes(rng, (29,))}, "datum": leaf,
+                              "amount": {"k": "number", "num": I(1)}, "optional": False})
+    elif where == "adhoc":
+        tx["adhoc"].append({"name": "plutus_witness", "data": [{"key": "script", "val": leaf},
+                                                               {"key": "version", "val": {"k": "number", "num": I(3)}}]})
+    elif where == "reference":
+        tx["references"].append(leaf)
+    else:
+        tx["metadata"].append({"key": {"k": "number", "num": I(1)}, "value": leaf})
+    return tx
